@@ -26,7 +26,7 @@ def gen_case(sd, idx, small):
     kind = r.choice(["grid", "graph"])
     one_cell = r.random() < 0.12
     opts = {"space": kind, "explicit_chstt": 0.7, "integer_state": True, "state_counts": (0, 40), "p_zero": 0.15,
-            "net": {"no_growth": False, "chstt": 0.5, "nreactions": (0, 3), "nspecies": (1, 4), "max_order": 3, "counts": (0, 40)},
+            "net": {"chstt": 0.5, "nreactions": (0, 3), "nspecies": (1, 4), "max_order": 3, "counts": (0, 40)},
             "grid": {"dims": (1, 1) if one_cell else (1, 3), "max_cells": 6 if small else 18},
             "graph": {"nodes": (1, 1) if one_cell else (2, 4 if small else 7), "simple": True}}
     desc = gen.rand_system(r, opts)
@@ -66,6 +66,7 @@ def run_case(case):
     ctx = {"case": {"seed": sd, "idx": idx, "python": with_python}}
     bad = []
     counts = {}
+    accs = {}
 
     def cnt(k, n_=1):
         counts[k] = counts.get(k, 0) + n_
@@ -84,9 +85,10 @@ def run_case(case):
     osys = (gen.mild_sys(r)[0], gen.mild_sys(r)[1], "molecule")
 
     # ---------------- engines ----------------
-    for kind_, nsteps in (("euler", 12), ("tauleap", 25), ("gillespie", 250)):
+    for kind_, nsteps in (("euler", 12), ("tauleap", 150), ("gillespie", 250)):
         try:
-            script = simhelp.make_script(system, r, dt_si=dt, t_sample_si=[0.0], policy="on_iteration",
+            dt_k = dt * (r.choice([5.0, 15.0]) if kind_ == "tauleap" else 1.0)    # larger leaps: more events per step, more power
+            script = simhelp.make_script(system, r, dt_si=dt_k, t_sample_si=[0.0], policy="on_iteration",
                                          t_max_si=1e9 * dt, usys=osys, isp="none", seed=r.randrange(2 ** 31))
             t, d, complete, out = simhelp.run_script(kind_, script, nsteps)
         except Exception as e:
@@ -140,6 +142,16 @@ def run_case(case):
             cnt("tauleap_steps", len(t) - 1)
             if not np.all(X == np.round(X)):
                 bad.append({"what": "tauleap: non-integer count", **ctx})
+            # unflagged entries must follow the master-equation rates with flagged entries acting as reactants,
+            # diffusion sources and sinks: increments of every species total and of one unflagged entry next to a
+            # flagged one are fed into pooled Ville monitors (vf.stoch)
+            funcs = [("total-species-%d" % s_, {s_ * n + i: 1 for i in range(n)}) for s_ in range(min(S, 3))]
+            unfl_next_to_fl = [k for k in range(S * n) if not chst[k] and any(chst[(k // n) * n + j] for j in range(n))]
+            if unfl_next_to_fl:
+                funcs.append(("unflagged-entry-of-a-species-with-a-flagged-cell", {unfl_next_to_fl[0]: 1}))
+            used, skipped = stoch.tauleap_accumulate(desc, chst, X.tolist(), float(t[1] - t[0]) if len(t) > 1 else dt_k, accs, funcs,
+                                                     prefix="tauleap-with-chemostats:")
+            cnt("tauleap_rate_steps", used)
 
     # ---------------- python entry points ----------------
     if with_python:
@@ -211,7 +223,7 @@ def run_case(case):
                     break
         except Exception as e:
             bad.append({"what": "apply_reaction: exception on valid arguments", "error": "%s: %s" % (type(e).__name__, e), **ctx})
-    return {"key": chash(desc), "nontrivial": bool(flagged) and asymmetric(desc), "counts": counts, "bad": bad[:6],
+    return {"key": chash(desc), "nontrivial": bool(flagged) and asymmetric(desc), "counts": counts, "bad": bad[:6], "accs": accs,
             "sample": {"seed": sd, "idx": idx, "space": desc["space"]["type"], "ncells": n, "nspecies": S,
                        "chemostats": chst[:24], "reactions": [gen.eq_string(x["sub"], x["prod"]) for x in desc["reactions"]]}}
 
@@ -231,13 +243,14 @@ def main():
                    "(one-cell) + apply_reaction on every reaction. Non-trivial: at least one flagged entry and a map that "
                    "is asymmetric across species within a cell or across cells within a species.",
               assumptions=["reference rate law / channels in vf/ref.py", "states are exact integers in molecules; init_state_processing='none'"])
-    run.require("flagged_entry_samples", "euler_unflagged_step_entries", "gillespie_steps_classified", "dstatedt_entries",
+    run.require("tauleap_rate_steps", "flagged_entry_samples", "euler_unflagged_step_entries", "gillespie_steps_classified", "dstatedt_entries",
                 "dxdtf_entries", "apply_reaction_entries")
     thorough = tier() == "thorough"
-    n_total = 6000 if thorough else 480
-    n_py = 1200 if thorough else 120
+    n_total = 8000 if thorough else 2400
+    n_py = 1500 if thorough else 480
     cases = [{"seed": seed(), "idx": i, "python": i < n_py} for i in range(n_total)]
     res = pmap("vf.checks.c03:run_case", cases, cpu_budget=30)
+    pool = stoch.Pool()
     for c, r_ in zip(cases, res):
         if r_["status"] != "ok":
             if r_["status"] in ("crash", "hang"):
@@ -253,6 +266,9 @@ def main():
             run.count(k, n_)
         for b in v["bad"]:
             run.violation(b["what"].split(":")[0], b, mech={"what": b["what"]})
+        pool.add(c, v.get("accs", {}))
+    run.note("statistical_monitors", pool.judge(run, "tau-leap statistic '%s' (chemostats as sources/sinks) departs from the master equation (Ville test)"))
+    run.note("false_alarm_budget", (len(pool.P) + pool.looks) * 1e-12)
     return run.finish()
 
 
